@@ -914,6 +914,17 @@ fn main() {
         };
         cx.add(kind, text, "corpus", 0, None, in_lang, json!({"corpus": name, "constructs": constructs}));
     }
+    // 0b. deep nesting (the model's fuel must suffice: a PFuel result never agrees)
+    for depth in [40usize, 120] {
+        let list = format!("{{a(x:{}1{})}}", "[".repeat(depth), "]".repeat(depth));
+        cx.add(Kind::Op, &list, "corpus", 0, None, true, json!({"corpus": format!("deep-list-{depth}")}));
+        let sel = format!("{}x{}", "{a".repeat(depth), "}".repeat(depth));
+        cx.add(Kind::Op, &sel, "corpus", 0, None, true, json!({"corpus": format!("deep-selection-{depth}")}));
+        let ty = format!("type A{{f:{}Int{}}}", "[".repeat(depth), "]!".repeat(depth));
+        cx.add(Kind::Ts, &ty, "corpus", 0, None, true, json!({"corpus": format!("deep-type-{depth}")}));
+        let obj = format!("{{a(x:{}1{})}}", "{k:".repeat(depth), "}".repeat(depth));
+        cx.add(Kind::Op, &obj, "corpus", 0, None, true, json!({"corpus": format!("deep-object-{depth}")}));
+    }
     // 1. the repository's own parser test inputs (dedented; original too when short enough)
     for (kind, text) in repo_test_inputs(thorough) {
         let d = dedent(&text);
